@@ -394,7 +394,7 @@ func doSelfTest(t *testing.T) {
 		defer hashF.Close()
 	}
 	props := []string{"C02", "C04", "C07", "C08", "C09", "C10", "C11", "C15", "C18", "C03"}
-	for run := 0; run < *fSelfTest; run++ {
+	for run := *fFrom; run < *fSelfTest; run++ {
 		prop := props[run%len(props)]
 		gen := func() *Desc {
 			rng := rand.New(rand.NewSource(*fSeed*1000003 + int64(run)*104729))
